@@ -12,6 +12,10 @@ over the run-level object of the stream machine (`BV/Model/StreamRun.lean`: `run
 * `nonfinal_requests_cover_blocks_run`: the hypothesis `BlocksOK` of the stream clause DERIVED FROM THE
   RUN — one theorem over `run` for every never-flushed history at quality ≥ 2 (instance `nfqSim` of the
   run-level simulation `run_sim`, Lemmas/StreamRunSim.lean + StreamNFFull.lean).
+* `never_flushed_run_structure`, `stream_total_le_bound_run`: the grammar of the log of a never-flushed
+  run (second instance `nfSim`, Lemmas/StreamNFSum.lean) and the SUM — bytes delivered ≤ Max(total input) —
+  with the per-meta-block growth bound as the only payload hypothesis (log arithmetic:
+  Lemmas/StreamNFArith.lean); `pieceGuard_of_wmbi` links that bound to `guard_holds`.
 -/
 import BV.Props.C08
 import BV.Lemmas.StreamTotal
@@ -19,6 +23,7 @@ import BV.Lemmas.StreamRunTile
 import BV.Model.StreamNF
 import BV.Lemmas.StreamNFFull
 import BV.Lemmas.StreamNFSum
+import BV.Lemmas.StreamNFArith
 
 namespace BV.Props.C08Run
 open BV.Stream BV.Bits BV.Stored
@@ -158,20 +163,23 @@ theorem never_flushed_run_structure {o : Oracle} {fuel : Nat} {calls : List Call
       ∧ (∀ e ∈ log, (∃ w, e = .window w) ∨ EvFull e) :=
   nf_run_structure hf hh hnf hw h hq hfin
 
-/- FULL STATEMENT (`stream_total_le_bound_run`): under the hypotheses of `never_flushed_run_structure` and
-`LogGuard` of the run's log (the per-meta-block growth bound that `guard_holds` proves of
-`WriteMetaBlockInternal`), `t.delivered.length ≤ maxCompressedSize s.inputPos`.
-It is proved below with ONE explicit extra hypothesis, `NFLogArith o`: a statement about abstract event
-lists only (grammar `nfT`, positions, `EvFull`, `LogGuard` ⇒ at most `8 · Max` bits) whose proof —
-`Run`/`BlocksOK` read off the log, `run_bound`, the head arithmetic of `stream_total_bound` — is not
-written yet.  Everything that involves the stream machine is discharged. -/
+/-- **stream_total_le_bound_run**: ONE run-level theorem for the stream clause.  For every history of
+`set_parameter` / `take_output` / PROCESS / FINISH calls (never FLUSH, no metadata; any chunking, any output
+capacities, any interleaving of `take_output`) on a fresh encoder with `size_hint < 2^35` that ends FINISHED
+at quality ≥ 2 with total input `n = input_pos_ < 2^54`: there is a log — whose pieces concatenate to EXACTLY
+the delivered bit stream and whose payload-encoder requests are the trace's — such that, if every emitted
+payload piece obeys the per-meta-block growth bound (`LogGuard`: `Guard` at the piece's bit position for its
+`hi - lf - pre` input bytes, nothing for an empty block, at most the padded 2-bit empty last block behind the
+final one — what `guard_holds` proves of `WriteMetaBlockInternal`), then
 
-/-- **stream_total_le_bound_run_partial**: total bytes delivered ≤ `BrotliEncoderMaxCompressedSize`(total
-input) for a whole never-flushed run, reduced to the log arithmetic `NFLogArith`. -/
-theorem stream_total_le_bound_run_partial {o : Oracle} {fuel : Nat} {calls : List Call} {s0 s : St} {t : Trace}
+    total bytes delivered ≤ BrotliEncoderMaxCompressedSize(n).
+
+`BlocksOK`, the meta-block boundaries, the exact size of the stream head, the absence of sync blocks and
+the head arithmetic are all DERIVED from the run; the growth bound is the only payload hypothesis. -/
+theorem stream_total_le_bound_run {o : Oracle} {fuel : Nat} {calls : List Call} {s0 s : St} {t : Trace}
     (hf : IsFresh s0) (hh : s0.params.sizeHint < 2 ^ 35) (hnf : NeverFlushed calls) (hw : histLen calls < two64)
     (h : run o fuel calls s0 {} = .ok (s, t)) (hq : s.q01 = false) (hfin : isFinished s = true)
-    (hn : s.inputPos < 2 ^ 54) (harith : NFLogArith o) :
+    (hn : s.inputPos < 2 ^ 54) :
     ∃ log : List Ev, deliveredBits t s = logBits o log ∧ logReqs log = t.reqs ∧
       (LogGuard o 0 ⟨0, 0, 0, 0⟩ log → t.delivered.length ≤ maxCompressedSize s.inputPos) := by
   obtain ⟨log, hb, hr, hok, hpos, hpath, hfull⟩ := nf_run_structure hf hh hnf hw h hq hfin
@@ -179,7 +187,7 @@ theorem stream_total_le_bound_run_partial {o : Oracle} {fuel : Nat} {calls : Lis
   intro hG
   have hip : s.inputPos = (logPos ⟨0, 0, 0, 0⟩ log).ip := congrArg Pos.ip hpos
   have hlt : (logPos ⟨0, 0, 0, 0⟩ log).ip < 2 ^ 54 := by rw [← hip]; exact hn
-  have := harith log hpath hok hfull hG hlt
+  have := nfLogArith o log hpath hok hfull hG hlt
   rw [← hip] at this
   have hlen : 8 * t.delivered.length ≤ (logBits o log).length := by
     rw [← hb]
@@ -187,6 +195,28 @@ theorem stream_total_le_bound_run_partial {o : Oracle} {fuel : Nat} {calls : Lis
     rw [List.length_append, bytesBits_length, List.length_append]
     omega
   omega
+
+/-- the growth bound of a piece is what `WriteMetaBlockInternal` guarantees: if the payload piece of a
+meta-block of `1 ≤ len ≤ 2^24` bytes is what the size-decision model writes behind a staging storage `w`
+(below bit 256) whose length is congruent to the global bit position, `PieceGuard` holds — for every verdict
+of `should_compress` and every bit string of the compressed attempt (`guard_holds`) -/
+theorem pieceGuard_of_wmbi (app cat last : Bool) (data : List Nat) (mo : MbOracle) (w : Writer) (D : Nat) (r : MbOut)
+    (hcat : cat = true → app = true) (h1 : 1 ≤ data.length) (h2 : data.length ≤ 2 ^ 24) (hw : w.length < 256)
+    (hr : writeMetaBlockInternal app cat last data mo w = .ok r) (m : Nat)
+    (hm : r.body.length ≤ w.length + m ∧ w.length + m ≤ (if last then r.fin.length else r.body.length)) :
+    PieceGuard (8 * D + w.length) data.length m last := by
+  obtain ⟨r', hr', g1, g2, g3, g4⟩ := BV.Props.C08.guard_holds app cat last data mo w hcat h1 h2 hw
+  rw [hr] at hr'
+  cases hr'
+  refine ⟨8 * D + r.body.length, by omega, fun h0 => by omega, fun _ => BV.Stored.guard_shift D _ _ _ g1, by omega, ?_⟩
+  cases last
+  · simp only [Bool.false_eq_true, if_false] at hm ⊢
+    omega
+  · simp only [if_true] at hm ⊢
+    omega
+
+/-- non-vacuity: a 3-byte final meta-block at bit 8 whose piece is 40 bits long obeys the growth bound -/
+example : PieceGuard 8 3 40 true := ⟨48, by decide, by decide, fun _ => by decide, by decide, by decide⟩
 
 /-- non-vacuity of the hypotheses of `never_flushed_run_structure`: a quality-5 history that ends finished -/
 def exampleFinished (r : Out (St × Trace)) : Bool :=
@@ -203,5 +233,18 @@ def exampleCheck (r : Option (Out OneShot)) (ret : Bool) (sz : Nat) (k : String)
   match r with | some (.ok r) => r.ret == ret && r.encodedSize == sz && r.kind == k | _ => false
 example : exampleCheck (oneshotRun exampleOracle 60 5 22 [1, 2, 3] 100 100) true 3 "stream" = true := by decide
 example : exampleCheck (oneshotRun exampleOracle 60 5 22 [1, 2, 3] 2 2) false 0 "too-small" = true := by decide
+
+/-
+META-BLOCK LENGTHS ≤ 2^24.  Not needed by `stream_total_le_bound_run` (its payload hypothesis is the growth
+bound itself), but needed to OBTAIN that bound from `guard_holds` (`pieceGuard_of_wmbi`: `1 ≤ len ≤ 2^24`).
+The stream machine does NOT force it: in `encode_data` the decision to keep accumulating is
+`!is_last && !force_flush && !should_flush && next_input_fits_metablock && num_literals_ < max_literals &&
+num_commands_ < max_commands` — evaluated behind `BrotliCreateBackwardReferences`, on the payload side — and
+the model takes its outcome as the oracle's `emit` answer; nothing else in the machine (ring size, block size,
+`get_brotli_storage`) ends a meta-block.  With the emit rule as an oracle hypothesis — `emit = false` only if
+`(hi - lf) + 2^lgblock ≤ MaxMetablockSize ≤ 2^24` (`next_input_fits_metablock`) — every closed span is ≤ 2^24:
+a request's span grows by at most one input block (`Inv.blk`) over the previous, unemitted one.  The harness
+checks "no closed span above 2^24" on every `header nfrun` history.
+-/
 
 end BV.Props.C08Run
